@@ -114,7 +114,17 @@ type vNetConn struct {
 	consumed    int
 	checkClean  bool
 	violated    bool
+	// I/O deadline: when deadlines is set, every SetDeadline arms a timer that may fire at any later
+	// scheduling point; a blocked or later Read then fails with a timeout error (net.Error, Timeout() == true)
+	deadlines bool
+	dl        chan struct{}
 }
+
+type vTimeoutErr struct{}
+
+func (vTimeoutErr) Error() string   { return "i/o timeout" }
+func (vTimeoutErr) Timeout() bool   { return true }
+func (vTimeoutErr) Temporary() bool { return true }
 
 func newVNetConn() *vNetConn {
 	return &vNetConn{inbox: make(chan []byte, 8), outbox: make(chan []byte, 8), closedCh: make(chan struct{})}
@@ -127,6 +137,8 @@ func (c *vNetConn) Read(p []byte) (int, error) {
 			c.pend = b
 		case <-c.closedCh:
 			return 0, errVConn
+		case <-c.dl: // nil channel (never ready) unless a deadline is armed
+			return 0, vTimeoutErr{}
 		}
 	}
 	n := copy(p, c.pend)
@@ -161,6 +173,12 @@ func (c *vNetConn) RemoteAddr() net.Addr { return vAddr{} }
 func (c *vNetConn) SetDeadline(t time.Time) error {
 	if c.closed {
 		return errVConn
+	}
+	c.dl = nil
+	if c.deadlines && !t.IsZero() {
+		d := make(chan struct{})
+		c.dl = d
+		go func() { close(d) }() // the deadline strikes whenever this goroutine is scheduled
 	}
 	return nil
 }
